@@ -248,6 +248,8 @@ def stepPure (tok : List String) (impl : Option String) : Unit × String × Stri
   | _ => bad
 
 def step (st : St) (tok : List String) (_line : String) (impl : Option String) : St × String × String :=
+  -- an op the harness cannot perform without the repository's private helpers (VERIF_INTERNALS=0): unobserved
+  if impl == some "skip" then (st, "skip", "ok") else
   match tok with
   | op :: _ =>
     if op == "node" || op == "mutual" || op == "hs" || op == "key" then
